@@ -1,5 +1,7 @@
 SPECIFICATION GenSpec
 CONSTANT Which = "C17"
+CONSTANT SmallLen = 6
+CONSTANT AsBuilt = {}
 CONSTANT MaxLen = 4
 INVARIANT Export
 CHECK_DEADLOCK FALSE
